@@ -1,7 +1,7 @@
 //! The circle primitive
 
 use crate::{
-    geometry::{Dimensions, Point, PointExt, Size},
+    geometry::{Dimensions, Point, Size},
     primitives::{
         common::DistanceIterator, ContainsPoint, OffsetOutline, PointsIter, Primitive, Rectangle,
     },
@@ -129,9 +129,12 @@ impl PointsIter for Circle {
 impl ContainsPoint for Circle {
     fn contains(&self, point: Point) -> bool {
         let delta = self.center_2x() - point * 2;
-        let distance = delta.length_squared() as u32;
 
-        distance < self.threshold()
+        // 64 bit integers are used because the squared distance exceeds the `i32` range for points
+        // that are far away from the circle.
+        let distance = i64::from(delta.x).pow(2) + i64::from(delta.y).pow(2);
+
+        distance < i64::from(self.threshold())
     }
 }
 
